@@ -843,6 +843,81 @@ func vActRipemdTouchRevert(w *vWorld) {
 	w.after(&a)
 }
 
+// vActDestructRecreate destroys an account (one with storage where the rules allow
+// it), ends the transaction and recreates a contract with fresh storage at the same
+// address in the next transaction of the same block.
+func vActDestructRecreate(w *vWorld) {
+	var a common.Address
+	if w.rs.m.Cancun {
+		// only a contract created in this very transaction can be destroyed
+		var ok bool
+		a, ok = w.drawAddrWhere("addr", func(_ common.Address, acc *refstate.Account) bool {
+			return acc == nil || (acc.Nonce == 0 && len(acc.Code) == 0 && len(acc.Storage) == 0)
+		})
+		if !ok {
+			return
+		}
+		if old := w.m.TxStart()[ra(a)]; old != nil && len(old.Storage) != 0 {
+			return
+		}
+		if !w.exist(a) {
+			w.sdb.CreateAccount(a)
+			w.m.CreateAccount(ra(a))
+		}
+		w.sdb.CreateContract(a)
+		w.m.CreateContract(ra(a))
+		w.sdb.SetNonce(a, 1, tracing.NonceChangeNewContract)
+		w.m.SetNonce(ra(a), 1)
+		k := rapid.SampledFrom(vSlots).Draw(w.rt, "slot0")
+		w.sdb.SetState(a, k, vVals[1])
+		w.m.SetState(ra(a), rw(k), rw(vVals[1]))
+	} else {
+		a, _ = w.drawAddrWhere("addr", func(_ common.Address, acc *refstate.Account) bool { return acc != nil && len(acc.Storage) > 0 })
+	}
+	if rapid.Bool().Draw(w.rt, "zeroBalance") {
+		// as the opcode does: move the balance away first
+		bal := w.sdb.GetBalance(a).Clone()
+		w.m.GetBalance(ra(a))
+		w.sdb.SubBalance(a, bal, tracing.BalanceDecreaseSelfdestruct)
+		w.m.SubBalance(ra(a), bal.ToBig())
+	}
+	w.sdb.SelfDestruct(a)
+	w.m.SelfDestruct(ra(a))
+	w.logf("DestructRecreate %s: SelfDestruct", vShortAddr(a))
+	w.after(&a)
+	w.finalise()
+	w.checkAll()
+	w.beginTx(true)
+	// recreate (if it is gone or eligible: Amsterdam may have kept a balance-only account)
+	acc := w.m.Account(ra(a))
+	if acc != nil && (acc.Nonce != 0 || len(acc.Code) != 0 || len(acc.Storage) != 0) {
+		return
+	}
+	if !w.exist(a) {
+		w.sdb.CreateAccount(a)
+		w.m.CreateAccount(ra(a))
+		w.noteCreate(a)
+	}
+	w.sdb.CreateContract(a)
+	w.m.CreateContract(ra(a))
+	if w.rs.m.EIP158 || w.strict {
+		w.sdb.SetNonce(a, 1, tracing.NonceChangeNewContract)
+		w.m.SetNonce(ra(a), 1)
+	}
+	n := rapid.IntRange(0, 2).Draw(w.rt, "newSlots")
+	for i := 0; i < n; i++ {
+		k := rapid.SampledFrom(vSlots).Draw(w.rt, "slot")
+		v := rapid.SampledFrom(vVals).Draw(w.rt, "val")
+		g := w.sdb.SetState(a, k, v)
+		e := w.m.SetState(ra(a), rw(k), rw(v))
+		if g != common.Hash(e) {
+			w.fail("SetState returned previous value %x, model %x", g, e)
+		}
+	}
+	w.logf("DestructRecreate %s: recreated with %d slots", vShortAddr(a), n)
+	w.after(&a)
+}
+
 func (w *vWorld) snapshot() {
 	id := w.sdb.Snapshot()
 	w.m.Snapshot(id)
@@ -946,6 +1021,7 @@ var vActions = []vAction{
 	{"CreateAccount", 3, vActCreateAccount},
 	{"Create", 8, vActCreate},
 	{"SelfDestruct", 8, vActSelfDestruct},
+	{"DestructRecreate", 3, vActDestructRecreate},
 	{"Snapshot", 9, vActSnapshot},
 	{"Revert", 7, vActRevert},
 	{"RipemdTouchRevert", 2, vActRipemdTouchRevert},
